@@ -36,7 +36,7 @@ REACH = [("yamlpath/commands/yaml_paths.py", "search_for_paths,yield_children", 
          ("yamlpath/commands/yaml_paths.py", "process_yaml_file,print_results,get_search_term", "yaml_paths CLI glue"),
          ("yamlpath/common/searches.py", "search_anchor", "Searches.search_anchor")]
 SIZES = {"quick": dict(lib=200000, cli=800), "thorough": dict(lib=1200000, cli=3000)}
-REQUIRED_COUNTERS = ["lib_cases", "cli_cases", "resolved_paths", "anchor_docs", "expand_cases", "cli_escaped_terms", "multi_expression_subprocess_cases", "cli_route_dash", "cli_route_implicit", "docs_with_negative_integer_keys"]
+REQUIRED_COUNTERS = ["multi_document_cases", "lib_cases", "cli_cases", "resolved_paths", "anchor_docs", "expand_cases", "cli_escaped_terms", "multi_expression_subprocess_cases", "cli_route_dash", "cli_route_implicit", "docs_with_negative_integer_keys"]
 OPS = {"=": PathSearchMethods.EQUALS, "^": PathSearchMethods.STARTS_WITH, "$": PathSearchMethods.ENDS_WITH,
        "%": PathSearchMethods.CONTAINS, ">": PathSearchMethods.GREATER_THAN, "<": PathSearchMethods.LESS_THAN,
        ">=": PathSearchMethods.GREATER_THAN_OR_EQUAL, "<=": PathSearchMethods.LESS_THAN_OR_EQUAL,
@@ -424,11 +424,69 @@ def multi_expression_case(ctx, rng, workdir):
             "summary": "both: %r ; %s alone: %r ; %s alone: %r" % (o12[:8], e1, o1[:6], e2, o2[:6])})
 
 
+def multi_document_case(ctx, rng, workdir):
+    """A STREAM of documents in one file (or on STDIN): for every document the tool reports what it reports for that document
+    alone - same-shaped documents match at the same paths, and each of them is still reported."""
+    text, _ = gd.gen_doc(rng, rng.choice(["N", "A"]))
+    try:
+        data = yp.load(text)
+    except yp.LoadError:
+        return
+    if not isinstance(data, (dict, list)) or yp.is_set(data) or has_set_in_list(data):
+        return
+    vocab = gp.doc_vocab(data)
+    terms = [t for t in vocab["terms"] if t.isalnum()][:6]
+    if not terms:
+        return
+    docs = [text]
+    for _ in range(rng.randrange(1, 3)):
+        other = gd.gen_doc(rng, "N")[0]
+        docs.append(rng.choice([text, text, other]))
+    rng.shuffle(docs)
+    expr = rng.choice(["=", "^", "$"]) + rng.choice(terms)
+    opts = rng.choice([[], ["-k"], ["-m"], ["-K"]])
+    os.makedirs(workdir, exist_ok=True)
+    singles = []
+    for i, d in enumerate(docs):
+        f1 = os.path.join(workdir, "one.yaml")
+        with open(f1, "w") as fh:
+            fh.write(d + "\n")
+        r = cli.run("yaml_paths", ["-S", "-X", "-F", "-s", expr] + opts + [f1])
+        if r["exc"] or r["code"] != 0:
+            return
+        singles.append([ln for ln in r["out"].splitlines() if ln.strip()])
+    stream = "".join("--- %s\n" % d for d in docs)
+    f = os.path.join(workdir, "stream.yaml")
+    with open(f, "w") as fh:
+        fh.write(stream)
+    route = rng.choice(["file", "stdin"])
+    if route == "file":
+        r = cli.run("yaml_paths", ["-S", "-X", "-s", expr] + opts + [f])
+        label = f
+    else:
+        r = cli.run("yaml_paths", ["-X", "-s", expr] + opts + ["-"], stdin_text=stream)
+        label = "STDIN"
+    ctx.evaluations += 1
+    ctx.counters["multi_document_cases"] = ctx.counters.get("multi_document_cases", 0) + 1
+    case = {"docs": docs, "expression": expr, "options": opts, "route": route}
+    if r["exc"]:
+        ctx.violation("cli-crash", {"case": case, "summary": r["exc"][:200]})
+        return
+    got = [ln for ln in r["out"].splitlines() if ln.strip()]
+    want = ["%s/%d: %s" % (label, i, ln) for i, lines in enumerate(singles) for ln in lines]
+    if sum(1 for x in singles if x) >= 2:
+        ctx.mark_nontrivial([docs, expr, opts])
+    if got != want:
+        ctx.violation("multi-document-run-differs-from-single-runs/yaml-paths", {"case": case, "summary": "stream: %r ; one by one: %r" % (got[:8], want[:8])})
+
+
 def run_shard(ctx):
     rng = ctx.rng
     sz = SIZES[ctx.tier]
     for _ in range(3 if ctx.tier == "quick" else 40):
         multi_expression_case(ctx, rng, os.path.join(os.environ.get("VF_WORKDIR", "/dev/shm"), "c07m-%d" % ctx.shard))
+    for _ in range(12 if ctx.tier == "quick" else 150):
+        multi_document_case(ctx, rng, os.path.join(os.environ.get("VF_WORKDIR", "/dev/shm"), "c07d-%d" % ctx.shard))
     workdir = os.path.join(os.environ.get("VF_WORKDIR", "/dev/shm"), "c07-%d" % ctx.shard)
     if ctx.shard == 0:
         for d, op, t in SEEDS:
